@@ -112,4 +112,4 @@ def correspondence(ctx):
             if why:
                 ctx.disagree("conan", "%s @%d" % (s, i), why, "v < upper_bound < bump", True,
                              {"scheme": "conan", "version": s, "index": i, "clause": why}, spec="bracketing")
-    ctx.sample({"semver": "1.2.3-rc.1", "next_patch": str(V.SemverVersion("1.2.3-rc.1").next_patch())})
+    ctx.sample({"semver": "1.2.3-rc.1", "next_patch": common.safe(lambda: V.SemverVersion("1.2.3-rc.1").next_patch())})
